@@ -40,6 +40,9 @@ C = {
  "C16": ("model_checking", "5.5,6/C16", "TLA+ spec EntryRead.tla (pull pipeline; invariants and spec mutants model-checked with TLC) + trace validation of every read() call of the real readers (Trace_EntryRead.tla) + ZipOpen!OpenDecision (Trace_Open.tla)",
    "MacAtEnd/TamperDetected/AE-1-vs-AE-2 CRC rule model-checked (no_mac/no_crc mutants found); binding: entries from the independent AES encryptor for every (AE version, strength, inner method, length in {0,1,15,16,17,33,1000}), open decisions for none/right/wrong passwords, reads under short-read schedules, every single-bit flip of salt/verifier/ciphertext/MAC of small entries and CRC-field flips.",
    "empty entries exempt from the MAC claim as the property says; quick samples the flips"),
+ "C10": ("model_checking", "5.6,6/C10", "TLA+ spec ZipStream.tla (cursor/drain/visitor model + spec mutants, TLC) + trace validation of the streaming reader (Trace_Stream.tla, expectations from ZipOpen!EntryView)",
+   "OnRecordBoundary/EndAtDirectory/VisitOrder hold over all entry lists and consumption histories of the model (no_drain, drain_one_short, meta_skipped mutants are found); binding: archives from the crate's writer and the independent builder are walked front to back over short-reading sources with per-entry consumption plans {0,1,half,all-1,all,EOF,beyond}; the stream offset at each header parse, each entry's metadata and content prefix (= what the seekable reader must report for the lexed layout), the end-of-entries signal, errors for encrypted/data-descriptor entries, and the visitor's file + metadata callbacks are validated.",
+   "archives with >= 1 entry and no prefix/gaps, as the property states"),
 }
 checks = []
 for pid in sorted(C):
